@@ -4,11 +4,12 @@
 # test suite there, runs the quick checks of the given properties against it, then removes the worktree and its build output.
 set -u
 P=$(readlink -f "$1"); shift
+VD=$(cd "$(dirname "$0")/.." && pwd)
 SUITE=0; if [ "${1:-}" = "--suite" ]; then SUITE=1; shift; fi
 export GOFLAGS=-mod=mod GOPROXY=off GOSUMDB=off GOTOOLCHAIN=local
 W=$(mktemp -d /tmp/vmut.XXXXXX)
 git -C /repo worktree add -q --detach "$W/r" HEAD || exit 3
-cleanup() { git -C /repo worktree remove --force "$W/r" 2>/dev/null; rm -rf "$W"; rm -f /verif/.work/*"$(echo -n "$W/r" | md5sum | cut -c1-10)"*; }
+cleanup() { git -C /repo worktree remove --force "$W/r" 2>/dev/null; rm -rf "$W"; rm -f "$VD"/.work/*"$(echo -n "$W/r" | md5sum | cut -c1-10)"*; }
 trap cleanup EXIT
 if ! git -C "$W/r" apply "$P"; then echo "PATCH-DOES-NOT-APPLY"; exit 3; fi
 if [ $SUITE = 1 ]; then
@@ -16,7 +17,7 @@ if [ $SUITE = 1 ]; then
 fi
 rc=0
 for id in "$@"; do
-  out=$(cd /verif && VERIF_REPO="$W/r" VERIF_REPLAY_DIR="$W/replays" VERIF_NO_EVIDENCE=1 VERIF_TIER="${VERIF_TIER:-quick}" ./run.sh "$id" 2>&1)
+  out=$(cd "$VD" && VERIF_REPO="$W/r" VERIF_REPLAY_DIR="$W/replays" VERIF_NO_EVIDENCE=1 VERIF_TIER="${VERIF_TIER:-quick}" ./run.sh "$id" 2>&1)
   code=$?
   echo "$out" | grep -E "^VIOLATION|^KNOWN|BUILD-FAILED" | cut -c1-${CUT:-400} | head -${HEAD:-3}
   echo "CHECK $id exit=$code $(echo "$out" | tail -1 | cut -c1-160)"
